@@ -9,6 +9,7 @@ import Miden.Lemmas.Trunc
 import Miden.Lemmas.Memcopy
 import Miden.Lemmas.PipeMem
 import Miden.Lemmas.Forward
+import Miden.Lemmas.ForwardAdv
 import Miden.Generated.StdlibSys
 namespace Miden.C18
 open Miden
@@ -99,6 +100,18 @@ theorem pipe_double_words_to_memory_exact (env : Env) (fuel : Nat) (vm vm' : Vm)
       vm'.stack = padN 16 ((PipeMem.pipeState K v vm.adv).reverse ++ (start + 2 * K) :: rest) ∧
       vm'.mem = PipeMem.pipeMem vm.ctx K start vm.mem vm.adv ∧ vm'.fmp = vm.fmp ∧ vm'.ctx = vm.ctx :=
   PipeMem.pipe_double_words_spec env fuel vm vm' v start K rest hv hs hrest he h
+
+/-- **`pipe_double_words_to_memory` completes exactly when the tape is long enough**: with fuel
+    `≥ K + 4` and a cycle budget of `9·K + 22`, the executor completes if and only if the advice tape
+    holds at least `8K` elements. -/
+theorem pipe_double_words_completes_iff (env : Env) (fuel : Nat) (vm : Vm) (v : List Nat) (start K : Nat)
+    (rest : List Nat) (hv : v.length = 12)
+    (hs : vm.stack = v.reverse ++ start :: (start + 2 * K) :: rest) (hrest : 2 ≤ rest.length)
+    (he : start + 2 * K ≤ 4294967296)
+    (hf : K + 4 ≤ fuel) (hb : vm.clk + 9 * K + 22 ≤ env.maxCycles) :
+    (∃ vm', Vm.exec env fuel Generated.mem_pipe_double_words_to_memory vm = .ok vm') ↔ 8 * K ≤ vm.adv.length :=
+  ⟨fun ⟨vm', h⟩ => (PipeMem.pipe_double_words_spec env fuel vm vm' v start K rest hv hs hrest he h).1,
+   fun ht => PipeMem.pipe_double_words_total env fuel vm v start K rest hv hs hrest he ht hf hb⟩
 
 /-- What was piped can be read back: word `j < 2K` above `start` holds tape elements `4j .. 4j+3`. -/
 theorem piped_memory_holds_the_tape (ctx : Nat) (tape : List Nat) (a : Nat) (m : Mem) (K j : Nat) (hj : j < 2 * K) :
